@@ -26,6 +26,8 @@ import (
 	"testing"
 	"time"
 
+	_ "mosn.io/mosn/pkg/stream/http"
+	_ "mosn.io/mosn/pkg/stream/http2"
 	"mosn.io/mosn/pkg/verifrt/vreport"
 	"mosn.io/mosn/pkg/verifrt/vrt"
 )
@@ -40,7 +42,9 @@ func c02hScenarios() []hhScenario {
 		sc.Name = hhScenarioName(&sc) + " (" + tag + ")"
 		out = append(out, sc)
 	}
-	rq := func(tok string, body bool, script ...string) hhRequest { return hhRequest{Token: tok, Body: body, Script: script} }
+	rq := func(tok string, body bool, script ...string) hhRequest {
+		return hhRequest{Token: tok, Body: body, Script: script}
+	}
 	on := func(conn int, r hhRequest) hhRequest { r.Conn = conn; return r }
 	// keep-alive, replies in order; the upstream connection is reused request after request
 	add("keep-alive in order", hhScenario{Hosts: 1, Requests: []hhRequest{rq("t1", false, hhOK), rq("t2", true, hhOK)}})
@@ -60,9 +64,13 @@ func c02hScenarios() []hhScenario {
 	add("reply races the per-try timeout while another client uses the pool", hhScenario{Hosts: 1, TryTimeoutMs: 100, Requests: []hhRequest{rq("t1", true, hhOKAtTry), on(1, rq("t2", true, hhOKAtTry))}})
 	add("silent upstream, timeout, next request follows", hhScenario{Hosts: 1, TryTimeoutMs: 100, Requests: []hhRequest{rq("t1", true, hhSilent), rq("t2", true, hhOK)}})
 	// an upstream that sends a second, unsolicited response
-	add("unsolicited second response in the same read", hhScenario{Hosts: 1, Requests: []hhRequest{rq("t1", true, hhOKPlusExtra), rq("t2", true, hhOK)}})
-	add("unsolicited second response in a later read", hhScenario{Hosts: 1, Requests: []hhRequest{rq("t1", true, hhOKThenExtra), rq("t2", true, hhOK)}})
-	add("unsolicited second response, other client takes the connection", hhScenario{Hosts: 1, Settle: true, Requests: []hhRequest{rq("t1", true, hhOKPlusExtra), on(1, rq("t2", false, hhOK))}})
+	// (Settle: the next request is sent once everything came to rest, so the unsolicited bytes reach MOSN
+	// while the connection is idle. Bytes that arrive while MOSN is already placing the next request on
+	// the connection cannot be told from its answer by anybody: HTTP/1 has no ids.)
+	add("unsolicited second response in the same read", hhScenario{Hosts: 1, Settle: true, Requests: []hhRequest{rq("t1", true, hhOKPlusExtra), rq("t2", true, hhOK)}})
+	add("unsolicited second response in a later read", hhScenario{Hosts: 1, Settle: true, Requests: []hhRequest{rq("t1", true, hhOKThenExtra), rq("t2", true, hhOK)}})
+	add("unsolicited second response, other client takes the connection", hhScenario{Hosts: 1, Settle: true, Serial: true, Requests: []hhRequest{rq("t1", true, hhOKPlusExtra), on(1, rq("t2", false, hhOK))}})
+	add("unsolicited second response in a later read, other client takes the connection", hhScenario{Hosts: 1, Settle: true, Serial: true, Requests: []hhRequest{rq("t1", true, hhOKThenExtra), on(1, rq("t2", false, hhOK))}})
 	// an upstream that closes: instead of answering, mid-response, after answering, or announces it
 	add("upstream closes instead of answering", hhScenario{Hosts: 1, Requests: []hhRequest{rq("t1", true, hhClose), rq("t2", true, hhOK)}})
 	add("success, then the upstream closes instead of answering", hhScenario{Hosts: 1, Requests: []hhRequest{rq("t1", true, hhOK), rq("t2", true, hhClose), rq("t3", false, hhOK)}})
@@ -106,70 +114,83 @@ func c02hCheck(sc *hhScenario, obs *hhObs, r *vrt.Result, report func(kind, deta
 		if d.Garbage != "" {
 			report("undecodable bytes written downstream", fmt.Sprintf("connection %d: %s", ci, d.Garbage))
 		}
-		for k, f := range d.Responses {
-			if k >= len(d.Sent) {
-				report("downstream received a response that answers no request it sent", fmt.Sprintf("connection %d: %d requests sent, response #%d is %s", ci, len(d.Sent), k+1, f.String()))
-				continue
+		for _, f := range d.Orphans {
+			if f.Ctl != "" {
+				continue // a stream reset for a stream the client never opened: no response
 			}
-			i := d.Sent[k]
-			rq := sc.Requests[i]
-			where := fmt.Sprintf("connection %d, response #%d, answers request %s: %s", ci, k+1, rq.Token, f.String())
-			// root-cause class of a misdelivery: what kind of upstream response ended up here
-			report := report
+			kind := "downstream received a response that answers no request it sent"
 			if obs.Extra[f.Headers["rserial"]] {
-				inner := report
-				report = func(kind, detail string) {
-					inner(kind+" [the response is one the upstream sent unsolicited on a pooled connection]", detail)
-				}
+				kind += " [the response is one the upstream sent unsolicited on a pooled connection]"
 			}
-			// request headers echoed by a MOSN-generated reply
-			if tk := f.token(); tk != "" && tk != rq.Token {
-				report("reply carries another request's headers", where)
-			}
-			if rt := f.rtoken(); rt != "" {
-				// an upstream response: status, header and body must all be the ones produced for this request
-				if rt != rq.Token {
-					report("response delivered to a request it was not produced for (header)", where)
+			report(kind, fmt.Sprintf("connection %d: %d requests sent, extra response %s", ci, len(d.Sent), f.String()))
+		}
+		for k, i := range d.Sent {
+			for n, f := range d.Answers[k] {
+				if f.Ctl != "" {
+					continue // stream reset: no response (C03's business)
 				}
-				if si, scripted := c02hScripted(sc, f.Status); !scripted || si != i {
-					report("response status comes from a different exchange than its headers", where)
+				rq := sc.Requests[i]
+				where := fmt.Sprintf("connection %d, answer to request %s: %s", ci, rq.Token, f.String())
+				if n > 0 {
+					report("the same request was answered more than once", where)
 				}
-				if want := obs.Serials[f.Headers["rserial"]]; want != rt {
-					report("response header block mixes two upstream responses", where+fmt.Sprintf(" (rserial %s was produced for %q)", f.Headers["rserial"], want))
-				}
-				if prev, dup := serialSeen[f.Headers["rserial"]]; dup {
-					report("the same upstream response was delivered twice", where+" and "+prev)
-				}
-				serialSeen[f.Headers["rserial"]] = where
-			} else if si, scripted := c02hScripted(sc, f.Status); scripted {
-				if si != i {
-					report("response status comes from a different exchange than its headers", where+fmt.Sprintf(" (status of a scripted reply to request %s on a MOSN-generated reply)", sc.Requests[si].Token))
-				} else {
-					// MOSN's own (timeout) reply to this request, labelled with the status of the late upstream
-					// response to the same request: both parts were produced for this very request, the
-					// statement is silent on mixing them. Enumerated, not compared.
-					note("replies_mixing_own_local_reply_and_own_upstream_status")
-				}
-			}
-			switch {
-			case f.Body == "":
-			case strings.HasPrefix(f.Body, "resp-of-"):
-				if f.Body != "resp-of-"+rq.Token {
-					report("response delivered to a request it was not produced for (body)", where)
-				} else if f.rtoken() == "" {
-					kind := "response header and body come from different exchanges"
-					if obs.Attempts[rq.Token] > 1 {
-						kind += " [own body under a header block that is not the upstream's; the request was retried]"
+				// root-cause class of a misdelivery: what kind of upstream response ended up here
+				report := report
+				if obs.Extra[f.Headers["rserial"]] {
+					inner := report
+					report = func(kind, detail string) {
+						inner(kind+" [the response is one the upstream sent unsolicited on a pooled connection]", detail)
 					}
-					report(kind, where)
 				}
-			case strings.HasPrefix(f.Body, "body-of-"):
-				if f.Body != "body-of-"+rq.Token {
-					report("reply carries another request's body", where)
+				// request headers echoed by a MOSN-generated reply
+				if tk := f.token(); tk != "" && tk != rq.Token {
+					report("reply carries another request's headers", where)
 				}
-			default:
-				if strings.Contains(f.Body, "-of-") {
-					report("response body is not one exchange's body", where)
+				if rt := f.rtoken(); rt != "" {
+					// an upstream response: status, header and body must all be the ones produced for this request
+					if rt != rq.Token {
+						report("response delivered to a request it was not produced for (header)", where)
+					}
+					if si, scripted := c02hScripted(sc, f.Status); !scripted || si != i {
+						report("response status comes from a different exchange than its headers", where)
+					}
+					if want := obs.Serials[f.Headers["rserial"]]; want != rt {
+						report("response header block mixes two upstream responses", where+fmt.Sprintf(" (rserial %s was produced for %q)", f.Headers["rserial"], want))
+					}
+					if prev, dup := serialSeen[f.Headers["rserial"]]; dup {
+						report("the same upstream response was delivered twice", where+" and "+prev)
+					}
+					serialSeen[f.Headers["rserial"]] = where
+				} else if si, scripted := c02hScripted(sc, f.Status); scripted {
+					if si != i {
+						report("response status comes from a different exchange than its headers", where+fmt.Sprintf(" (status of a scripted reply to request %s on a MOSN-generated reply)", sc.Requests[si].Token))
+					} else {
+						// MOSN's own (timeout) reply to this request, labelled with the status of the late upstream
+						// response to the same request: both parts were produced for this very request, the
+						// statement is silent on mixing them. Enumerated, not compared.
+						note("replies_mixing_own_local_reply_and_own_upstream_status")
+					}
+				}
+				switch {
+				case f.Body == "":
+				case strings.HasPrefix(f.Body, "resp-of-"):
+					if f.Body != "resp-of-"+rq.Token {
+						report("response delivered to a request it was not produced for (body)", where)
+					} else if f.rtoken() == "" {
+						kind := "response header and body come from different exchanges"
+						if obs.Attempts[rq.Token] > 1 {
+							kind += " [own body under a header block that is not the upstream's; the request was retried]"
+						}
+						report(kind, where)
+					}
+				case strings.HasPrefix(f.Body, "body-of-"):
+					if f.Body != "body-of-"+rq.Token {
+						report("reply carries another request's body", where)
+					}
+				default:
+					if strings.Contains(f.Body, "-of-") {
+						report("response body is not one exchange's body", where)
+					}
 				}
 			}
 		}
@@ -220,6 +241,12 @@ func c02hRun(p *vreport.Part, sc hhScenario, replay bool, maxExecs int) bool {
 		outcome := hhOutcome(obs)
 		if hhDebug() {
 			fmt.Printf("EXEC %s\n  outcome=%s\n  log=%v active=%d\n", r, outcome, obs.Log, obs.Active)
+			for ui, u := range obs.Ups {
+				fmt.Printf("  up%d wrote: %v\n", ui, hhDumpWrites(u.Conn))
+			}
+			for di, d := range obs.Downs {
+				fmt.Printf("  down%d wrote: %v\n", di, hhDumpWrites(d.Conn))
+			}
 			for _, l := range r.Trace {
 				fmt.Println("   ", l)
 			}
@@ -254,7 +281,65 @@ func c02hRun(p *vreport.Part, sc hhScenario, replay bool, maxExecs int) bool {
 }
 
 func TestVerifH1C02Correlation(t *testing.T) {
-	const part = "http1-proxy-correlation"
+	c02hMain("http1-proxy-correlation", c02hScenarios(),
+		"HTTP/1.1 scenarios (this shard): 2-4 requests with distinct tokens from one or two downstream connections (keep-alive sequential, pipelined) over the ping-pong pool of one or two hosts; upstream replies in order, racing the per-try / global timer, late after the timeout reply, unsolicited second responses, connection closed instead of / in the middle of / after the response, Connection: close, split reads, 5xx retried",
+		"the k-th response on a downstream connection answers the k-th request sent on it")
+}
+
+// c02h2Scenarios: HTTP/2 downstream and upstream (pkg/stream/http2 + pkg/module/http2, multiplexed
+// upstream connection; rewrite set "hphttp2").
+func c02h2Scenarios() []hhScenario {
+	var out []hhScenario
+	add := func(tag string, sc hhScenario) {
+		sc.Proto = "Http2"
+		if sc.RouteTimeoutMs == 0 {
+			sc.RouteTimeoutMs = 1000
+		}
+		sc.Name = hhScenarioName(&sc) + " (" + tag + ")"
+		out = append(out, sc)
+	}
+	rq := func(tok string, body bool, script ...string) hhRequest {
+		return hhRequest{Token: tok, Body: body, Script: script}
+	}
+	on := func(conn int, r hhRequest) hhRequest { r.Conn = conn; return r }
+	for _, body := range []bool{false, true} {
+		add("concurrent streams, in order", hhScenario{Hosts: 1, Pipelined: true, Requests: []hhRequest{rq("t1", body, hhOK), rq("t2", body, hhOK)}})
+		add("concurrent streams, replies reversed", hhScenario{Hosts: 1, Pipelined: true, Reverse: true, Requests: []hhRequest{rq("t1", body, hhOK), rq("t2", body, hhOK)}})
+		add("two reads, replies reversed", hhScenario{Hosts: 1, Concurrent: true, Reverse: true, Requests: []hhRequest{rq("t1", body, hhOK), rq("t2", body, hhOK)}})
+	}
+	add("three concurrent streams, replies reversed", hhScenario{Hosts: 1, Pipelined: true, Reverse: true, Requests: []hhRequest{rq("t1", true, hhOK), rq("t2", false, hhOKNoBody), rq("t3", true, hhOK)}})
+	add("two clients share the upstream connection, replies reversed", hhScenario{Hosts: 1, Reverse: true, Requests: []hhRequest{rq("t1", true, hhOK), on(1, rq("t2", true, hhOK))}})
+	add("sequential streams", hhScenario{Hosts: 1, Requests: []hhRequest{rq("t1", true, hhOK), rq("t2", false, hhOK)}})
+	// late replies
+	add("reply races the per-try timeout, next stream follows", hhScenario{Hosts: 1, TryTimeoutMs: 100, Requests: []hhRequest{rq("t1", true, hhOKAtTry), rq("t2", true, hhOK)}})
+	add("late reply after the timeout reply, next stream follows", hhScenario{Hosts: 1, TryTimeoutMs: 100, Requests: []hhRequest{rq("t1", true, hhLateOK), rq("t2", true, hhOK)}})
+	add("late reply after the global timeout reply, next stream follows", hhScenario{Hosts: 1, Requests: []hhRequest{rq("t1", false, hhLateOK), rq("t2", false, hhOK)}})
+	add("reply races the per-try timeout, retried", hhScenario{Hosts: 1, TryTimeoutMs: 100, RetryOn: true, NumRetries: 1, Requests: []hhRequest{rq("t1", true, hhOKAtTry, hhOK), rq("t2", false, hhOK)}})
+	add("reply races the per-try timeout next to a concurrent stream", hhScenario{Hosts: 1, TryTimeoutMs: 100, Pipelined: true, Requests: []hhRequest{rq("t1", true, hhOKAtTry), rq("t2", true, hhOK)}})
+	// duplicate / unknown-stream replies
+	add("second response on a finished stream", hhScenario{Hosts: 1, Pipelined: true, Requests: []hhRequest{rq("t1", true, hhOKPlusExtra), rq("t2", true, hhOK)}})
+	add("second response on a finished stream, in a later read", hhScenario{Hosts: 1, Requests: []hhRequest{rq("t1", true, hhOKThenExtra), rq("t2", true, hhOK)}})
+	add("response on a stream nobody opened", hhScenario{Hosts: 1, Pipelined: true, Requests: []hhRequest{rq("t1", true, hhUnknownOK), rq("t2", true, hhOK)}})
+	// resets
+	add("upstream resets one stream", hhScenario{Hosts: 1, Pipelined: true, Requests: []hhRequest{rq("t1", true, hhRst), rq("t2", true, hhOK)}})
+	add("upstream closes the connection between", hhScenario{Hosts: 1, Pipelined: true, Requests: []hhRequest{rq("t1", true, hhClose), rq("t2", true, hhOK)}})
+	add("upstream closes the connection, next stream follows", hhScenario{Hosts: 1, Requests: []hhRequest{rq("t1", true, hhClose), rq("t2", true, hhOK)}})
+	add("upstream closes mid-response next to a concurrent stream", hhScenario{Hosts: 1, Pipelined: true, Requests: []hhRequest{rq("t1", true, hhCloseMid), rq("t2", true, hhOK)}})
+	// retries, split
+	add("5xx retried next to a plain stream", hhScenario{Hosts: 2, RetryOn: true, NumRetries: 1, Pipelined: true, Requests: []hhRequest{rq("t1", true, hhErr, hhOK), rq("t2", true, hhOK)}})
+	add("5xx retried on the same host", hhScenario{Hosts: 1, RetryOn: true, NumRetries: 1, Requests: []hhRequest{rq("t1", true, hhErr, hhOK), rq("t2", false, hhOK)}})
+	add("response split across reads next to a plain stream", hhScenario{Hosts: 1, Pipelined: true, Reverse: true, Requests: []hhRequest{rq("t1", true, hhOKSplit), rq("t2", true, hhOK)}})
+	return out
+}
+
+func TestVerifH2C02Correlation(t *testing.T) {
+	c02hMain("http2-proxy-correlation", c02h2Scenarios(),
+		"HTTP/2 scenarios (this shard): 2-3 requests with distinct tokens as concurrent or sequential streams of one or two downstream connections over the multiplexed upstream connection of one or two hosts; upstream replies in order, reversed, racing the per-try timer, late after the timeout reply, a second response on a finished stream, a response on a stream nobody opened, RST_STREAM, connection closed instead of / in the middle of a response, split reads, 5xx retried",
+		"a response answers the request whose stream id it carries")
+}
+
+// c02hMain is the body of the HTTP correlation tests.
+func c02hMain(part string, scenarios []hhScenario, what, how string) {
 	p := vreport.Begin("C02", part, time.Hour)
 	var rc hhScenario
 	if vreport.Replaying() {
@@ -269,7 +354,7 @@ func TestVerifH1C02Correlation(t *testing.T) {
 	n := 0
 	bound := vreport.Pick(1, 2)
 	maxExecs := vreport.Pick(20000, 80000)
-	for i, sc := range c02hScenarios() {
+	for i, sc := range scenarios {
 		if only := os.Getenv("VERIF_C02H_ONLY"); only != "" {
 			if sc.Name != only || si != 0 {
 				continue
@@ -293,6 +378,6 @@ func TestVerifH1C02Correlation(t *testing.T) {
 		n++
 	}
 	p.Note("scenarios", n)
-	p.End(complete, fmt.Sprintf("%d HTTP/1.1 scenarios (this shard): 2-3 requests with distinct tokens from one or two downstream connections (keep-alive sequential, pipelined) over the ping-pong pool of one or two hosts; upstream replies in order, racing the per-try / global timer, late after the timeout reply, unsolicited second responses, connection closed instead of / in the middle of / after the response, Connection: close, split reads, 5xx retried; all schedules with <=%d deviations (delay bounding), execution cap %d per scenario", n, bound, maxExecs),
-		"every request carries a unique token in path, header and body; every scripted upstream response carries the token of the request it answers in a header, in the body and in the status code, plus a serial number unique per injected response; the k-th response on a downstream connection answers the k-th request sent on it: its status, headers and body must all belong to that exchange, an upstream response is delivered at most once, no response without a request; forwarded requests are checked the same way; one evaluation = one complete execution; distinct = distinct (scenario, downstream responses with tokens, upstream attempts, peer actions)")
+	p.End(complete, fmt.Sprintf("%d %s; all schedules with <=%d deviations (delay bounding), execution cap %d per scenario", n, what, bound, maxExecs),
+		"every request carries a unique token in path, header and body; every scripted upstream response carries the token of the request it answers in a header, in the body and in the status code, plus a serial number unique per injected response; "+how+": its status, headers and body must all belong to that exchange, an upstream response is delivered at most once, no response without a request; forwarded requests are checked the same way; one evaluation = one complete execution; distinct = distinct (scenario, downstream responses with tokens, upstream attempts, peer actions)")
 }
